@@ -71,6 +71,11 @@ def make_bench(state):
     return Bench(role, start, next_in=4, next_out=4)
 
 
+class SetupViolation(Exception):
+    """In-domain traffic (a clean session, a connection loss, a fresh connection, the client's own Logon) did not lead to
+    the state the case starts from: that is a verdict about the endpoint, not a harness problem."""
+
+
 def second_connection(state):
     """An endpoint object on its second connection: first a complete session (for the client: the peer logs on
     first, so the client answered as acceptor), a connection loss, then a fresh transport."""
@@ -82,7 +87,7 @@ def second_connection(state):
         b = Bench(role, "active", next_in=4, next_out=4)
         b.feed(b.frame("0", b.E - 1))  # too low -> Logout with a reason text, disconnect
         if not b.disconnected():
-            raise RuntimeError(f"first session did not end: {b.ep.connection_state!r}")
+            raise SetupViolation(f"a too-low Heartbeat on an ACTIVE session did not end it: {b.ep.connection_state!r}")
         b.w.advance(1.01)
         if role == "acceptor":
             b.link = b.w.attach_server_only()
@@ -107,7 +112,7 @@ def second_connection(state):
     # the counterparty talks first: the client takes the acceptor part of the Logon exchange
     b.feed(b.frame("A", b.E, [(98, 0), (108, 30)]))
     if b.ep.connection_state.name != "ACTIVE":
-        raise RuntimeError(f"first session not established: {b.ep.connection_state!r}")
+        raise SetupViolation(f"a client that receives the peer's Logon first did not establish the session: {b.ep.connection_state!r}")
     b.feed(b.frame("D", b.E, [(11, "first-session")]))
     b.w.link.break_("eof")
     b.w.idle()
@@ -118,7 +123,7 @@ def second_connection(state):
     if state == "init2-logon-sent":
         r = b.w.call(b.ep.send_msg(_M(_F.LOGON, {98: 0, 108: 30})))
         if r[0] != "ok":
-            raise RuntimeError(f"second Logon could not be sent: {r}")
+            raise SetupViolation(f"the client's own Logon on its second connection was refused: {r[1]!r}")
     b.mark()
     return b
 
@@ -260,8 +265,13 @@ def after_disconnect(acc, b, extra, case, bad):
 
 
 def one_case(acc, state, cls, defect, extra=(), uid=1):
-    b = make_bench(state)
     case = {"state": state, "cls": cls, "defect": defect, "extra": list(extra)}
+    try:
+        b = make_bench(state)
+    except SetupViolation as e:
+        acc.violation("C11:setup/" + state, f"{e} | state={state}", case)
+        acc.case(None, cls="setup-failed")
+        return
 
     def bad(sig, detail, c=None):
         acc.violation("C11:" + sig, detail + f" | state={state} class={cls} defect={defect}", c or case)
